@@ -13,6 +13,7 @@ import (
 	"os/exec"
 	"strings"
 	"sync"
+	"sync/atomic"
 	"time"
 )
 
@@ -86,6 +87,11 @@ func (w *worker) ask(line string) string {
 // pool runs requests on n workers in parallel, preserving order of results.
 type pool struct {
 	workers []*worker
+	// maxFails > 0: once that many requests of one askAll batch ended in a
+	// timeout or a crash, the rest of the batch is answered "class=aborted"
+	// (a hanging implementation must not make the check run for hours)
+	maxFails int32
+	fails    int32
 }
 
 func newPool(n int, argv []string, env []string, timeout time.Duration) *pool {
@@ -104,6 +110,7 @@ func (p *pool) close() {
 
 func (p *pool) askAll(reqs []string) []string {
 	out := make([]string, len(reqs))
+	atomic.StoreInt32(&p.fails, 0)
 	var wg sync.WaitGroup
 	next := 0
 	var mu sync.Mutex
@@ -119,7 +126,14 @@ func (p *pool) askAll(reqs []string) []string {
 				if i >= len(reqs) {
 					return
 				}
+				if p.maxFails > 0 && atomic.LoadInt32(&p.fails) >= p.maxFails {
+					out[i] = "R class=aborted"
+					continue
+				}
 				out[i] = w.ask(reqs[i])
+				if out[i] == "R class=timeout" || strings.HasPrefix(out[i], "R class=crash") {
+					atomic.AddInt32(&p.fails, 1)
+				}
 			}
 		}(w)
 	}
